@@ -572,8 +572,9 @@ UriBool URI_FUNC(FixAmbiguity)(URI_TYPE(Uri) * uri,
 			&& (uri->pathHead->next != NULL)
 			&& (uri->pathHead->text.afterLast == uri->pathHead->text.first))
 
-			/* Case 2: relative path, empty first and second segment */
+			/* Case 2: relative path (no host), empty first and second segment */
 			|| (!uri->absolutePath
+			&& !URI_FUNC(IsHostSet)(uri)
 			&& (uri->pathHead != NULL)
 			&& (uri->pathHead->next != NULL)
 			&& (uri->pathHead->text.afterLast == uri->pathHead->text.first)
